@@ -84,13 +84,46 @@ class NativeResult:
         self.clause = clause
 
 
+class _Ghosted:
+    """Clause-side view of a real object that adds the ghost fields of its class declaration."""
+
+    def __init__(self, obj, ghost):
+        object.__setattr__(self, "_obj", obj)
+        object.__setattr__(self, "_ghost", ghost)
+
+    def __getattr__(self, name):
+        g = object.__getattribute__(self, "_ghost")
+        o = object.__getattribute__(self, "_obj")
+        if name in g:
+            return g[name](o)
+        return getattr(o, name)
+
+    def __eq__(self, other):
+        return object.__getattribute__(self, "_obj") == (object.__getattribute__(other, "_obj") if isinstance(other, _Ghosted) else other)
+
+    def __hash__(self):
+        return hash(object.__getattribute__(self, "_obj"))
+
+
+def _ghost_view(v):
+    try:
+        name = f"{type(v).__module__}.{type(v).__qualname__}"
+    except Exception:
+        return v
+    for k in type(v).__mro__:
+        decl = REG.classes.get(f"{k.__module__}.{k.__qualname__}")
+        if decl is not None and decl.ghost:
+            return _Ghosted(v, decl.ghost)
+    return v
+
+
 def _env(fn, values, extra=None):
     env = dict(fn.__globals__)
     for nm, sf in REG.spec_functions.items():
         env[nm] = sf.native
-    env.update(values)
+    env.update({k: _ghost_view(v) for k, v in values.items()})
     if extra:
-        env.update(extra)
+        env.update({k: _ghost_view(v) for k, v in extra.items()})
     return env
 
 
